@@ -420,6 +420,17 @@ func dupHost(l []int) (int, bool) {
 
 // ---- monitors ---------------------------------------------------------------------------------
 
+// violate records a monitor failure; at most 40 per (monitor, finding) are kept with their input, all are counted
+var violationCounts = map[string]int{}
+
+func violate(o *hlib.Out, idx int, kind, finding, detail string, input interface{}) {
+	key := kind + "/" + finding
+	violationCounts[key]++
+	if violationCounts[key] <= 40 {
+		o.Violate(idx, kind, finding, detail, input)
+	}
+}
+
 // inScope: the property's quantifier (every node owns at least one token, no token owned twice,
 // every token string a token of the partitioner)
 func inScope(s *scenario, wellFormedTokens bool) bool {
@@ -476,7 +487,7 @@ func monitors(o *hlib.Out, idx int, s *scenario, res *gocql.VerifC10Result, scop
 				fid = "nts-unknown-dc-panic"
 			}
 		}
-		o.Violate(idx, "no-panic", fid, "replicaMap panicked: "+res.Panic, s.json())
+		violate(o, idx, "no-panic", fid, "replicaMap panicked: "+res.Panic, s.json())
 		return
 	}
 	// never a node twice, never more than the distinct nodes
@@ -486,11 +497,11 @@ func monitors(o *hlib.Out, idx int, s *scenario, res *gocql.VerifC10Result, scop
 			if nts && len(s.Hosts[h].Tokens) >= 2 {
 				fid = "nts-duplicate-replica"
 			}
-			o.Violate(idx, "no-duplicate", fid, fmt.Sprintf("token %q: replicas %v contain host %d twice", e.Token, e.Hosts, h), s.json())
+			violate(o, idx, "no-duplicate", fid, fmt.Sprintf("token %q: replicas %v contain host %d twice", e.Token, e.Hosts, h), s.json())
 			return
 		}
 		if len(e.Hosts) > distinct {
-			o.Violate(idx, "at-most-distinct-nodes", "", fmt.Sprintf("token %q: %d replicas, %d distinct nodes", e.Token, len(e.Hosts), distinct), s.json())
+			violate(o, idx, "at-most-distinct-nodes", "", fmt.Sprintf("token %q: %d replicas, %d distinct nodes", e.Token, len(e.Hosts), distinct), s.json())
 			return
 		}
 	}
@@ -522,11 +533,11 @@ func monitors(o *hlib.Out, idx int, s *scenario, res *gocql.VerifC10Result, scop
 		}
 		owner := ringWalk(ring, less, t)[0]
 		if !sameList(got, exact) || !sameSet(got, alt) {
-			o.Violate(idx, "equals-cassandra-placement", "", fmt.Sprintf("%s %q: driver %v, Cassandra 2.2 order %v, Cassandra 4.0 set %v", what, t, got, exact, alt), s.json())
+			violate(o, idx, "equals-cassandra-placement", "", fmt.Sprintf("%s %q: driver %v, Cassandra 2.2 order %v, Cassandra 4.0 set %v", what, t, got, exact, alt), s.json())
 			return false
 		}
 		if holds(owner) && (len(got) == 0 || got[0] != owner) {
-			o.Violate(idx, "owner-first", "", fmt.Sprintf("%s %q: owner %d is not first in %v", what, t, owner, got), s.json())
+			violate(o, idx, "owner-first", "", fmt.Sprintf("%s %q: owner %d is not first in %v", what, t, owner, got), s.json())
 			return false
 		}
 		if nts {
@@ -536,12 +547,12 @@ func monitors(o *hlib.Out, idx int, s *scenario, res *gocql.VerifC10Result, scop
 			}
 			for dc, c := range perDC {
 				if c > minInt(res.NtsDCs[dc], len(tp.endpoints[dc])) {
-					o.Violate(idx, "per-dc-count", "", fmt.Sprintf("%s %q: %d replicas in %s", what, t, c, dc), s.json())
+					violate(o, idx, "per-dc-count", "", fmt.Sprintf("%s %q: %d replicas in %s", what, t, c, dc), s.json())
 					return false
 				}
 			}
 		} else if len(got) != minInt(res.SimpleRF, distinct) {
-			o.Violate(idx, "simple-count", "", fmt.Sprintf("%s %q: %d replicas, rf %d, %d nodes", what, t, len(got), res.SimpleRF, distinct), s.json())
+			violate(o, idx, "simple-count", "", fmt.Sprintf("%s %q: %d replicas, rf %d, %d nodes", what, t, len(got), res.SimpleRF, distinct), s.json())
 			return false
 		}
 		return true
@@ -555,11 +566,18 @@ func monitors(o *hlib.Out, idx int, s *scenario, res *gocql.VerifC10Result, scop
 	}
 	for _, e := range res.Ring { // a ring token without an entry must belong to a DC without replicas
 		if !inMap[e.Token] && holds(e.Hosts[0]) {
-			o.Violate(idx, "entry-missing", "", fmt.Sprintf("ring token %q of host %d has no replica-map entry", e.Token, e.Hosts[0]), s.json())
+			violate(o, idx, "entry-missing", "", fmt.Sprintf("ring token %q of host %d has no replica-map entry", e.Token, e.Hosts[0]), s.json())
 			return
 		}
 	}
 	for _, l := range res.Lookups {
+		// GetHostForToken: the owner of the range (previous token, t], wrapping
+		if len(ring) > 0 {
+			if owner := ringWalk(ring, less, l.Token)[0]; l.Owner != owner {
+				violate(o, idx, "token-owner", "", fmt.Sprintf("lookup token %q: GetHostForToken gave host %d, the owner is %d", l.Token, l.Owner, owner), s.json())
+				return
+			}
+		}
 		if !checkOne("lookup token", l.Token, l.Hosts, l.Found) {
 			return
 		}
@@ -657,7 +675,7 @@ func genScenario(r *hlib.Rng, g genOpts) *scenario {
 		nh = 1 + r.Intn(minInt(5, g.maxHosts))
 	}
 	nd := 1 + r.Intn(g.maxDCs)
-	small := r.Chance(35)
+	small := r.Chance(55) // short tokens keep the Coq terms small; the rest spans the partitioner's full range
 	vn := 1 + r.Intn(g.maxTokens)
 	if r.Chance(45) {
 		vn = 1
@@ -739,7 +757,7 @@ func genScenario(r *hlib.Rng, g genOpts) *scenario {
 		opts["class"] = s.Class
 		opts["replication_factor"] = rfVal(rfPick())
 	case k < 18:
-		s.Class = []string{"org.apache.cassandra.locator.NetworkTopologyStrategy", "NetworkTopologyStrategy"}[r.Intn(2)]
+		s.Class = []string{"org.apache.cassandra.locator.NetworkTopologyStrategy", "NetworkTopologyStrategy", "NetworkTopologyStrategy"}[r.Intn(3)]
 		opts["class"] = s.Class
 		mode := r.Intn(10)
 		for d := 0; d < nd; d++ {
@@ -839,7 +857,7 @@ func runScenario(o *hlib.Out, kind string, s *scenario) {
 	ks := &gocql.KeyspaceMetadata{Name: "ks", StrategyClass: s.Class, StrategyOptions: s.opts()}
 	res := gocql.VerifC10Run(s.PName, hosts, ks, s.Lookups, s.RunMap)
 	if res.PartitionerErr {
-		o.Violate(-1, "partitioner-rejected", "", "newTokenRing rejected "+s.PName, s.json())
+		violate(o, -1, "partitioner-rejected", "", "newTokenRing rejected "+s.PName, s.json())
 		return
 	}
 	wf := wellFormed(s)
@@ -910,11 +928,11 @@ func strategyCases(o *hlib.Out, n int) {
 		idx := o.Case("strategy", kind != 0, fmt.Sprintf("CStrategy %s %s %s", cs(s.Class), optsTerm(s), stratTerm(kind, rf, dcs)))
 		// a selected strategy never carries a negative factor
 		if kind == 1 && rf < 0 {
-			o.Violate(idx, "negative-rf", "", "SimpleStrategy with a negative factor", s.json())
+			violate(o, idx, "negative-rf", "", "SimpleStrategy with a negative factor", s.json())
 		}
 		for dc, v := range dcs {
 			if v < 0 {
-				o.Violate(idx, "negative-rf", "", "negative factor for "+dc, s.json())
+				violate(o, idx, "negative-rf", "", "negative factor for "+dc, s.json())
 			}
 		}
 	}
@@ -937,7 +955,7 @@ func tokenCases(o *hlib.Out, n int) {
 		}
 		out, ok := gocql.VerifC10ParseToken(partNames[part][0], s)
 		if !ok {
-			o.Violate(-1, "partitioner-rejected", "", partNames[part][0], nil)
+			violate(o, -1, "partitioner-rejected", "", partNames[part][0], nil)
 			continue
 		}
 		if o.Search {
@@ -1037,6 +1055,46 @@ func exhaustive(o *hlib.Out, maxHosts, maxTok int, emitEvery int) int {
 	return count
 }
 
+// the recorded witnesses of the two known findings (Refuted.v) and the examples of Spec.v / Props.v, replayed on the real code
+func witnesses(o *hlib.Out) {
+	mk := func(hosts []hostD, class string, kv ...interface{}) *scenario {
+		s := &scenario{Part: 0, PName: partNames[0][0], Hosts: hosts, Class: class, RunMap: true}
+		opts := map[string]interface{}{"class": class}
+		for i := 0; i+1 < len(kv); i += 2 {
+			opts[kv[i].(string)] = kv[i+1]
+		}
+		for k := range opts {
+			s.OptKeys = append(s.OptKeys, k)
+		}
+		sort.Strings(s.OptKeys)
+		for _, k := range s.OptKeys {
+			s.OptVals = append(s.OptVals, opts[k])
+		}
+		s.Lookups = []string{"-60", "0", "5", "8", "35", "61", "91"}
+		return s
+	}
+	h := func(dc, rack string, addr uint32, toks ...string) hostD {
+		return hostD{DC: dc, Rack: rack, Addr: 0x0a000001 + addr, Tokens: toks}
+	}
+	nts := "org.apache.cassandra.locator.NetworkTopologyStrategy"
+	// nts-duplicate-replica: 3 hosts x 2 adjacent tokens, one rack, dc1: 2  (Refuted.nts_duplicate_refuted)
+	runScenario(o, "witness", mk([]hostD{h("dc1", "r1", 0, "0", "10"), h("dc1", "r1", 1, "20", "30"), h("dc1", "r1", 2, "40", "50")}, nts, "dc1", 2))
+	// one host, two tokens, dc1: 2  (Refuted.nts_exceeds_nodes_refuted)
+	runScenario(o, "witness", mk([]hostD{h("dc1", "r1", 0, "0", "10")}, nts, "dc1", "2"))
+	// nts-unknown-dc-panic: ring dc1 + dc2, keyspace {dc1: 1, dc3: 1}  (Refuted.nts_unknown_dc_crash_refuted)
+	runScenario(o, "witness", mk([]hostD{h("dc1", "r1", 0, "0"), h("dc2", "r1", 1, "10")}, nts, "dc1", 1, "dc3", 1))
+	// Spec.SpecExamples.ring6 (nodes 1..6 -> hosts 0..5) with its three keyspaces, and SimpleStrategy
+	ring6 := []hostD{h("dc1", "r1", 0, "10"), h("dc1", "r1", 1, "30"), h("dc1", "r2", 2, "50"), h("dc2", "r1", 3, "20"), h("dc2", "r2", 4, "40"), h("dc2", "r3", 5, "60")}
+	runScenario(o, "witness", mk(ring6, nts, "dc1", 2, "dc2", 2))
+	runScenario(o, "witness", mk(ring6, nts, "dc1", 3))
+	runScenario(o, "witness", mk(ring6, nts, "dc1", 7, "dc9", 2))
+	runScenario(o, "witness", mk(ring6, "org.apache.cassandra.locator.SimpleStrategy", "replication_factor", "3"))
+	// Props.NonVacuous.ring7
+	ring7 := []hostD{h("dc1", "r1", 0, "-50"), h("dc2", "r1", 1, "-20"), h("dc1", "r1", 2, "0"), h("dc2", "r2", 3, "7"), h("dc1", "r2", 4, "30"), h("dc2", "r3", 5, "31"), h("dc1", "r1", 6, "90")}
+	runScenario(o, "witness", mk(ring7, nts, "dc1", "3", "dc2", 2))
+	runScenario(o, "witness", mk(ring7, nts, "dc1", 1, "dc2", 1, "dc9", 2))
+}
+
 func main() {
 	o := hlib.Init("C10")
 	r := o.Rng
@@ -1047,19 +1105,21 @@ func main() {
 
 	if o.Search {
 		// failing-input search: monitors only, more and larger rings, vnode-heavy and DC-heavy
+		witnesses(o)
 		for i := 0; i < 4000*o.Scale/5; i++ {
 			runScenario(o, "search", genScenario(r, genOpts{maxHosts: 16, maxTokens: 8, maxDCs: 4, maxRacks: 4}))
 		}
 		n := exhaustive(o, 3, 2, 0)
 		o.Extra["search_exhaustive_scenarios"] = n
-		o.Finish("From GocqlV Require Import Lib.Base C10.Model C10.Corr.", "C10.Corr.case", "C10.Corr.run")
+		finish(o)
 		return
 	}
 
+	witnesses(o)
 	strategyCases(o, 120*o.Scale)
 	tokenCases(o, 80*o.Scale)
 	// structured: inside the property's quantifier (plus keyspace DCs outside the ring)
-	for i := 0; i < 900*o.Scale; i++ {
+	for i := 0; i < 700*o.Scale; i++ {
 		g := genOpts{maxHosts: 12, maxTokens: 8, maxDCs: 3, maxRacks: 4}
 		if i%3 == 0 {
 			g = genOpts{maxHosts: 5, maxTokens: 3, maxDCs: 2, maxRacks: 2}
@@ -1084,5 +1144,10 @@ func main() {
 		o.Extra["exhaustive_scenarios"] = n
 		o.Extra["exhaustive_scope"] = "<= 2 nodes x <= 2 tokens x <= 2 DCs x <= 2 racks, every interleaving, 8 keyspaces"
 	}
+	finish(o)
+}
+
+func finish(o *hlib.Out) {
+	o.Extra["monitor_failures_by_kind_and_finding"] = violationCounts
 	o.Finish("From GocqlV Require Import Lib.Base C10.Model C10.Corr.", "C10.Corr.case", "C10.Corr.run")
 }
